@@ -22,23 +22,27 @@ def op_lattice(tier):
         [(h, w, c) for h in (1, 2, 3, 8, 9, 33) for w in (1, 8, 33) for c in (1, 3, 8, 16, 17, 64, 130)]
     kernels = [(1, 1, 1, 1), (3, 3, 1, 1), (3, 3, 2, 2), (5, 2, 1, 1), (7, 7, 2, 1)] if tier == "quick" else \
         [(kw, kh, s, s) for kw, kh in ((1, 1), (3, 3), (2, 5), (7, 7), (9, 1), (1, 8), (8, 8)) for s in (1, 2, 3)]
+    kernels = [k + (1, 1) for k in kernels]
+    # dilated kernels (dx, dy), symmetric and both asymmetric forms: the IFM block must cover the DILATED kernel in each axis
+    kernels += [(3, 3, 1, 1, 2, 2), (3, 3, 1, 1, 1, 2), (3, 3, 1, 1, 2, 1), (2, 5, 1, 1, 1, 2)] if tier == "quick" else \
+        [(kw, kh, s, s, dx, dy) for kw, kh in ((3, 3), (2, 5), (5, 2), (7, 7)) for s in (1, 2) for dx, dy in ((2, 2), (1, 2), (2, 1))]
     for (oh, ow, oc) in shapes:
-        for (kw, kh, sx, sy) in kernels:
-            ih, iw = (oh - 1) * sy + kh, (ow - 1) * sx + kw
+        for (kw, kh, sx, sy, dx, dy) in kernels:
+            ih, iw = (oh - 1) * sy + (kh - 1) * dy + 1, (ow - 1) * sx + (kw - 1) * dx + 1
             if ih > 300 or iw > 300:
                 continue
             for dt in ("i8", "i16"):
                 for cin in (8, 24) if tier == "quick" else (1, 8, 16, 24, 40):
                     for trav in ("DEPTH_FIRST", "PART_KERNEL_FIRST"):
-                        s = oplists.conv_spec(X, Y, k=(kw, kh), s=(sx, sy), pad=(0, 0, 0, 0), hw=(ih, iw), cin=cin, cout=oc, dt=dt, trav=trav)
+                        s = oplists.conv_spec(X, Y, k=(kw, kh), s=(sx, sy), pad=(0, 0, 0, 0), hw=(ih, iw), cin=cin, cout=oc, dt=dt, trav=trav, dil=(dx, dy))
                         s["block"] = None
                         L.append(s)
-                d = oplists.conv_spec(X, Y, k=(kw, kh), s=(sx, sy), pad=(0, 0, 0, 0), hw=(ih, iw), cin=oc, cout=oc, dt=dt)
+                d = oplists.conv_spec(X, Y, k=(kw, kh), s=(sx, sy), pad=(0, 0, 0, 0), hw=(ih, iw), cin=oc, cout=oc, dt=dt, dil=(dx, dy))
                 d["kind"] = "depthwise"
                 d.pop("traversal", None)
                 d["block"] = None
                 L.append(d)
-                for sub in ("MAX", "AVERAGE"):
+                for sub in (("MAX", "AVERAGE") if (dx, dy) == (1, 1) else ()):
                     for act in (None, oplists.LUT_ACT):
                         p = oplists.pool_spec(sub, X, Y, k=(kw, kh), s=(sx, sy), hw=(ih, iw), c=oc, dt=dt, act=act)
                         p["block"] = None
